@@ -134,7 +134,7 @@ fn gen_char(g: &mut Gen) -> char {
 pub trait Describe: Sized + Encode + Decode + 'static {
     fn desc() -> String;
     fn depth() -> u32 { 0 }
-    fn gen(g: &mut Gen) -> Self;
+    fn mk(g: &mut Gen) -> Self;
     fn render(&self) -> String;
     /// oracle equality: `decoded` is what a round trip of `self` must give
     /// (skipped fields: the declared default; floats: same bits; unordered collections: as sets)
@@ -150,7 +150,7 @@ fn sorted_list(mut items: Vec<String>) -> String { items.sort(); list(items) }
 macro_rules! uint_leaf { ($($t:ty, $d:expr, $bits:expr);*) => {$(
     impl Describe for $t {
         fn desc() -> String { $d.into() }
-        fn gen(g: &mut Gen) -> Self { gen_u(g, $bits) as $t }
+        fn mk(g: &mut Gen) -> Self { gen_u(g, $bits) as $t }
         fn render(&self) -> String { format!("{}", self) }
         fn same(&self, o: &Self) -> bool { self == o }
         fn edges() -> Vec<Self> { u_edges($bits).into_iter().map(|x| x as $t).collect() }
@@ -160,7 +160,7 @@ macro_rules! uint_leaf { ($($t:ty, $d:expr, $bits:expr);*) => {$(
 macro_rules! sint_leaf { ($($t:ty, $d:expr, $bits:expr);*) => {$(
     impl Describe for $t {
         fn desc() -> String { $d.into() }
-        fn gen(g: &mut Gen) -> Self { gen_i(g, $bits) as $t }
+        fn mk(g: &mut Gen) -> Self { gen_i(g, $bits) as $t }
         fn render(&self) -> String { format!("{}", self) }
         fn same(&self, o: &Self) -> bool { self == o }
         fn edges() -> Vec<Self> { i_edges($bits).into_iter().map(|x| x as $t).collect() }
@@ -173,7 +173,7 @@ sint_leaf!(i8, "i8", 8; i16, "i16", 16; i32, "i32", 32; i64, "i64", 64; i128, "i
 macro_rules! nz_leaf { ($($t:ty, $inner:ty, $d:expr);*) => {$(
     impl Describe for $t {
         fn desc() -> String { $d.into() }
-        fn gen(g: &mut Gen) -> Self { loop { if let Some(x) = <$t>::new(<$inner>::gen(g)) { return x; } } }
+        fn mk(g: &mut Gen) -> Self { loop { if let Some(x) = <$t>::new(<$inner>::mk(g)) { return x; } } }
         fn render(&self) -> String { format!("{}", self.get()) }
         fn same(&self, o: &Self) -> bool { self == o }
         fn edges() -> Vec<Self> { <$inner>::edges().into_iter().filter_map(<$t>::new).collect() }
@@ -188,7 +188,7 @@ nz_leaf!(NonZeroU8, u8, "nzu8"; NonZeroU16, u16, "nzu16"; NonZeroU32, u32, "nzu3
 macro_rules! atomic_leaf { ($($t:ty, $inner:ty);*) => {$(
     impl Describe for $t {
         fn desc() -> String { <$inner>::desc() }
-        fn gen(g: &mut Gen) -> Self { <$t>::new(<$inner>::gen(g)) }
+        fn mk(g: &mut Gen) -> Self { <$t>::new(<$inner>::mk(g)) }
         fn render(&self) -> String { self.load(Ordering::Relaxed).render() }
         fn same(&self, o: &Self) -> bool { self.load(Ordering::Relaxed) == o.load(Ordering::Relaxed) }
     }
@@ -198,21 +198,21 @@ atomic_leaf!(AtomicBool, bool; AtomicI8, i8; AtomicI16, i16; AtomicI32, i32; Ato
 
 impl Describe for bool {
     fn desc() -> String { "bool".into() }
-    fn gen(g: &mut Gen) -> Self { g.rng.chance(1, 2) }
+    fn mk(g: &mut Gen) -> Self { g.rng.chance(1, 2) }
     fn render(&self) -> String { if *self { "T".into() } else { "F".into() } }
     fn same(&self, o: &Self) -> bool { self == o }
     fn edges() -> Vec<Self> { vec![false, true] }
 }
 impl Describe for char {
     fn desc() -> String { "char".into() }
-    fn gen(g: &mut Gen) -> Self { gen_char(g) }
+    fn mk(g: &mut Gen) -> Self { gen_char(g) }
     fn render(&self) -> String { format!("{}", *self as u32) }
     fn same(&self, o: &Self) -> bool { self == o }
     fn edges() -> Vec<Self> { CHAR_EDGES.iter().filter_map(|c| char::from_u32(*c)).collect() }
 }
 impl Describe for f32 {
     fn desc() -> String { "f32".into() }
-    fn gen(g: &mut Gen) -> Self {
+    fn mk(g: &mut Gen) -> Self {
         if g.rng.chance(1, 3) { *g.rng.pick(&[0.0f32, -0.0, 1.5, f32::INFINITY, f32::NEG_INFINITY, f32::NAN, f32::MIN_POSITIVE, f32::MAX, f32::from_bits(0x7fc0_0001), f32::from_bits(0xffff_ffff), f32::from_bits(1)]) }
         else { f32::from_bits(g.rng.next() as u32) }
     }
@@ -222,7 +222,7 @@ impl Describe for f32 {
 }
 impl Describe for f64 {
     fn desc() -> String { "f64".into() }
-    fn gen(g: &mut Gen) -> Self {
+    fn mk(g: &mut Gen) -> Self {
         if g.rng.chance(1, 3) { *g.rng.pick(&[0.0f64, -0.0, 1.5, f64::INFINITY, f64::NAN, f64::MAX, f64::from_bits(0x7ff8_0000_0000_0001), f64::from_bits(u64::MAX), f64::from_bits(1)]) }
         else { f64::from_bits(g.rng.next()) }
     }
@@ -232,27 +232,27 @@ impl Describe for f64 {
 }
 impl Describe for () {
     fn desc() -> String { "unit".into() }
-    fn gen(_: &mut Gen) -> Self {}
+    fn mk(_: &mut Gen) -> Self {}
     fn render(&self) -> String { "U".into() }
     fn same(&self, _: &Self) -> bool { true }
     fn edges() -> Vec<Self> { vec![()] }
 }
 impl Describe for RangeFull {
     fn desc() -> String { "unit".into() }
-    fn gen(_: &mut Gen) -> Self { .. }
+    fn mk(_: &mut Gen) -> Self { .. }
     fn render(&self) -> String { "U".into() }
     fn same(&self, _: &Self) -> bool { true }
 }
-impl<T: 'static> Describe for PhantomData<T> {
+impl<T: 'static + Encode> Describe for PhantomData<T> {
     fn desc() -> String { "unit".into() }
     fn depth() -> u32 { 1 }
-    fn gen(_: &mut Gen) -> Self { PhantomData }
+    fn mk(_: &mut Gen) -> Self { PhantomData }
     fn render(&self) -> String { "U".into() }
     fn same(&self, _: &Self) -> bool { true }
 }
 impl Describe for String {
     fn desc() -> String { "str".into() }
-    fn gen(g: &mut Gen) -> Self { gen_string(g) }
+    fn mk(g: &mut Gen) -> Self { gen_string(g) }
     fn render(&self) -> String { shex(self.as_bytes()) }
     fn same(&self, o: &Self) -> bool { self == o }
     fn edges() -> Vec<Self> { let mut v: Vec<String> = STR_POOL.iter().map(|s| s.to_string()).collect(); v.push("y".repeat(127)); v.push("y".repeat(128)); v.push("z".repeat(16384)); v }
@@ -261,7 +261,7 @@ macro_rules! str_like { ($($t:ty, $mk:expr);*) => {$(
     impl Describe for $t {
         fn desc() -> String { "str".into() }
         fn depth() -> u32 { 1 }
-        fn gen(g: &mut Gen) -> Self { let s = gen_string(g); ($mk)(s) }
+        fn mk(g: &mut Gen) -> Self { let s = gen_string(g); ($mk)(s) }
         fn render(&self) -> String { shex(AsRef::<std::ffi::OsStr>::as_ref(&**self).to_str().unwrap().as_bytes()) }
         fn same(&self, o: &Self) -> bool { **self == **o }
     }
@@ -270,25 +270,1015 @@ str_like!(Box<str>, |s: String| s.into_boxed_str(); Rc<str>, |s: String| Rc::<st
           Box<Path>, |s: String| PathBuf::from(s).into_boxed_path(); Rc<Path>, |s: String| Rc::<Path>::from(PathBuf::from(s)); Arc<Path>, |s: String| Arc::<Path>::from(PathBuf::from(s)));
 impl Describe for PathBuf {
     fn desc() -> String { "str".into() }
-    fn gen(g: &mut Gen) -> Self { PathBuf::from(gen_string(g)) }
+    fn mk(g: &mut Gen) -> Self { PathBuf::from(gen_string(g)) }
     fn render(&self) -> String { shex(self.to_str().unwrap().as_bytes()) }
     fn same(&self, o: &Self) -> bool { self == o }
 }
 impl Describe for Cow<'static, str> {
     fn desc() -> String { "str".into() }
     fn depth() -> u32 { 1 }
-    fn gen(g: &mut Gen) -> Self { if g.rng.chance(1, 4) { Cow::Borrowed(*g.rng.pick(STR_POOL)) } else { Cow::Owned(gen_string(g)) } }
+    fn mk(g: &mut Gen) -> Self { if g.rng.chance(1, 4) { Cow::Borrowed(*g.rng.pick(STR_POOL)) } else { Cow::Owned(gen_string(g)) } }
     fn render(&self) -> String { shex(self.as_bytes()) }
     fn same(&self, o: &Self) -> bool { self == o }
 }
 impl Describe for Duration {
     fn desc() -> String { "dur".into() }
-    fn gen(g: &mut Gen) -> Self {
-        let s = u64::gen(g);
+    fn mk(g: &mut Gen) -> Self {
+        let s = u64::mk(g);
         let n = if g.rng.chance(1, 2) { *g.rng.pick(&[0u32, 1, 127, 128, 16383, 16384, 2097151, 2097152, 268435455, 268435456, 999_999_999, 999_999_998]) } else { g.rng.below(1_000_000_000) as u32 };
         Duration::new(s, n)
     }
     fn render(&self) -> String { format!("[{},{}]", self.as_secs(), self.subsec_nanos()) }
     fn same(&self, o: &Self) -> bool { self == o }
     fn edges() -> Vec<Self> { vec![Duration::new(0, 0), Duration::new(u64::MAX, 999_999_999), Duration::new(1, 268435456), Duration::new(127, 128)] }
+}
+
+// ------------------------------------------------------------------------------------------------
+// transparent wrappers
+// ------------------------------------------------------------------------------------------------
+macro_rules! wrapper { ($($w:ident, $mk:expr, $get:expr);*) => {$(
+    impl<T: Describe> Describe for $w<T> {
+        fn desc() -> String { T::desc() }
+        fn depth() -> u32 { T::depth() + 1 }
+        fn mk(g: &mut Gen) -> Self { ($mk)(T::mk(g)) }
+        fn render(&self) -> String { ($get)(self, |x: &T| x.render()) }
+        fn same(&self, o: &Self) -> bool { ($get)(self, |a: &T| ($get)(o, |b: &T| a.same(b))) }
+    }
+)*}}
+fn with_box<T, R>(b: &Box<T>, f: impl FnOnce(&T) -> R) -> R { f(&**b) }
+fn with_rc<T, R>(b: &Rc<T>, f: impl FnOnce(&T) -> R) -> R { f(&**b) }
+fn with_arc<T, R>(b: &Arc<T>, f: impl FnOnce(&T) -> R) -> R { f(&**b) }
+fn with_refcell<T, R>(b: &RefCell<T>, f: impl FnOnce(&T) -> R) -> R { f(&*b.borrow()) }
+fn with_wrapping<T, R>(b: &Wrapping<T>, f: impl FnOnce(&T) -> R) -> R { f(&b.0) }
+fn with_reverse<T, R>(b: &Reverse<T>, f: impl FnOnce(&T) -> R) -> R { f(&b.0) }
+wrapper!(Box, Box::new, with_box; Rc, Rc::new, with_rc; Arc, Arc::new, with_arc; RefCell, RefCell::new, with_refcell;
+         Wrapping, Wrapping, with_wrapping; Reverse, Reverse, with_reverse);
+
+impl<T: Describe + Copy> Describe for Cell<T> {
+    fn desc() -> String { T::desc() }
+    fn depth() -> u32 { T::depth() + 1 }
+    fn mk(g: &mut Gen) -> Self { Cell::new(T::mk(g)) }
+    fn render(&self) -> String { self.get().render() }
+    fn same(&self, o: &Self) -> bool { self.get().same(&o.get()) }
+}
+impl<T: Describe + Clone> Describe for Cow<'static, T> {
+    fn desc() -> String { T::desc() }
+    fn depth() -> u32 { T::depth() + 1 }
+    fn mk(g: &mut Gen) -> Self {
+        let v = T::mk(g);
+        if g.rng.chance(1, 16) { Cow::Borrowed(Box::leak(Box::new(v))) } else { Cow::Owned(v) }
+    }
+    fn render(&self) -> String { (**self).render() }
+    fn same(&self, o: &Self) -> bool { (**self).same(&**o) }
+}
+
+// ------------------------------------------------------------------------------------------------
+// Option / Result / Bound
+// ------------------------------------------------------------------------------------------------
+impl<T: Describe> Describe for Option<T> {
+    fn desc() -> String { format!("opt({})", T::desc()) }
+    fn depth() -> u32 { T::depth() + 1 }
+    fn mk(g: &mut Gen) -> Self { if g.rng.chance(1, 4) { None } else { Some(T::mk(g)) } }
+    fn render(&self) -> String { match self { None => "#0(U)".into(), Some(v) => format!("#1({})", v.render()) } }
+    fn same(&self, o: &Self) -> bool { match (self, o) { (None, None) => true, (Some(a), Some(b)) => a.same(b), _ => false } }
+}
+impl<T: Describe, E: Describe> Describe for Result<T, E> {
+    fn desc() -> String { format!("res({},{})", T::desc(), E::desc()) }
+    fn depth() -> u32 { T::depth().max(E::depth()) + 1 }
+    fn mk(g: &mut Gen) -> Self { if g.rng.chance(1, 2) { Ok(T::mk(g)) } else { Err(E::mk(g)) } }
+    fn render(&self) -> String { match self { Err(e) => format!("#0({})", e.render()), Ok(v) => format!("#1({})", v.render()) } }
+    fn same(&self, o: &Self) -> bool { match (self, o) { (Ok(a), Ok(b)) => a.same(b), (Err(a), Err(b)) => a.same(b), _ => false } }
+}
+impl<T: Describe> Describe for Bound<T> {
+    fn desc() -> String { format!("bound({})", T::desc()) }
+    fn depth() -> u32 { T::depth() + 1 }
+    fn mk(g: &mut Gen) -> Self { match g.rng.below(3) { 0 => Bound::Unbounded, 1 => Bound::Included(T::mk(g)), _ => Bound::Excluded(T::mk(g)) } }
+    fn render(&self) -> String { match self { Bound::Unbounded => "#0(U)".into(), Bound::Included(v) => format!("#1({})", v.render()), Bound::Excluded(v) => format!("#2({})", v.render()) } }
+    fn same(&self, o: &Self) -> bool { match (self, o) { (Bound::Unbounded, Bound::Unbounded) => true, (Bound::Included(a), Bound::Included(b)) => a.same(b), (Bound::Excluded(a), Bound::Excluded(b)) => a.same(b), _ => false } }
+}
+
+// ------------------------------------------------------------------------------------------------
+// sequences
+// ------------------------------------------------------------------------------------------------
+fn gen_vec<T: Describe>(g: &mut Gen) -> Vec<T> { let n = g.len(); g.sub(|g| (0..n).map(|_| T::mk(g)).collect()) }
+fn same_iter<'a, T: Describe>(a: impl Iterator<Item = &'a T>, b: impl Iterator<Item = &'a T>) -> bool {
+    let a: Vec<&T> = a.collect(); let b: Vec<&T> = b.collect();
+    a.len() == b.len() && a.iter().zip(b.iter()).all(|(x, y)| x.same(y))
+}
+macro_rules! seq_like { ($($t:ty, [$($gp:tt)*], $from:expr);*) => {$(
+    impl<$($gp)*> Describe for $t {
+        fn desc() -> String { format!("seq({})", T::desc()) }
+        fn depth() -> u32 { T::depth() + 1 }
+        fn mk(g: &mut Gen) -> Self { ($from)(gen_vec::<T>(g)) }
+        fn render(&self) -> String { list(self.iter().map(|x| x.render()).collect()) }
+        fn same(&self, o: &Self) -> bool { same_iter(self.iter(), o.iter()) }
+    }
+)*}}
+seq_like!(Vec<T>, [T: Describe], |v: Vec<T>| v;
+          VecDeque<T>, [T: Describe], |v: Vec<T>| { let mut v = v; let tail = v.split_off(v.len() / 2); let mut d: VecDeque<T> = tail.into_iter().collect(); for x in v.into_iter().rev() { d.push_front(x); } d };
+          LinkedList<T>, [T: Describe], |v: Vec<T>| v.into_iter().collect::<LinkedList<T>>();
+          Box<[T]>, [T: Describe], |v: Vec<T>| v.into_boxed_slice();
+          Rc<[T]>, [T: Describe], |v: Vec<T>| Rc::<[T]>::from(v);
+          Arc<[T]>, [T: Describe], |v: Vec<T>| Arc::<[T]>::from(v);
+          SmallVec<[T; 2]>, [T: Describe], |v: Vec<T>| v.into_iter().collect::<SmallVec<[T; 2]>>();
+          Cow<'static, [T]>, [T: Describe + Clone], |v: Vec<T>| Cow::<'static, [T]>::Owned(v));
+
+impl<T: Describe, const N: usize> Describe for [T; N] {
+    fn desc() -> String { format!("arr({},{})", N, T::desc()) }
+    fn depth() -> u32 { T::depth() + 1 }
+    fn mk(g: &mut Gen) -> Self { g.sub(|g| std::array::from_fn(|_| T::mk(g))) }
+    fn render(&self) -> String { list(self.iter().map(|x| x.render()).collect()) }
+    fn same(&self, o: &Self) -> bool { same_iter(self.iter(), o.iter()) }
+}
+
+// ------------------------------------------------------------------------------------------------
+// sets and maps (a map is a sequence of pairs in iteration order; rendering of a *decoded* collection is
+// sorted, the value on the op line is in iteration order = encoding order)
+// ------------------------------------------------------------------------------------------------
+pub type FxSet<T> = HashSet<T, FxBuildHasher>;
+pub type FxMap<K, V> = HashMap<K, V, FxBuildHasher>;
+pub type FxDashSet<T> = DashSet<T, FxBuildHasher>;
+pub type FxDashMap<K, V> = DashMap<K, V, FxBuildHasher>;
+
+impl<T: Describe + Ord> Describe for BTreeSet<T> {
+    fn desc() -> String { format!("set({})", T::desc()) }
+    fn depth() -> u32 { T::depth() + 1 }
+    fn mk(g: &mut Gen) -> Self { gen_vec::<T>(g).into_iter().collect() }
+    fn render(&self) -> String { list(self.iter().map(|x| x.render()).collect()) }
+    fn same(&self, o: &Self) -> bool { self.len() == o.len() && self.iter().all(|x| o.get(x).map_or(false, |y| x.same(y))) }
+}
+impl<T: Describe + Eq + Hash> Describe for FxSet<T> {
+    fn desc() -> String { format!("set({})", T::desc()) }
+    fn depth() -> u32 { T::depth() + 1 }
+    fn mk(g: &mut Gen) -> Self { gen_vec::<T>(g).into_iter().collect() }
+    fn render(&self) -> String { list(self.iter().map(|x| x.render()).collect()) }
+    fn same(&self, o: &Self) -> bool { self.len() == o.len() && self.iter().all(|x| o.get(x).map_or(false, |y| x.same(y))) }
+}
+impl<T: Describe + Eq + Hash> Describe for FxDashSet<T> {
+    fn desc() -> String { format!("set({})", T::desc()) }
+    fn depth() -> u32 { T::depth() + 1 }
+    fn mk(g: &mut Gen) -> Self { gen_vec::<T>(g).into_iter().collect() }
+    fn render(&self) -> String { list(self.iter().map(|x| x.key().render()).collect()) }
+    fn same(&self, o: &Self) -> bool { self.len() == o.len() && self.iter().all(|x| o.get(x.key()).map_or(false, |y| x.key().same(y.key()))) }
+}
+fn pair(k: String, v: String) -> String { format!("[{},{}]", k, v) }
+impl<K: Describe + Ord, V: Describe> Describe for BTreeMap<K, V> {
+    fn desc() -> String { format!("map({},{})", K::desc(), V::desc()) }
+    fn depth() -> u32 { K::depth().max(V::depth()) + 1 }
+    fn mk(g: &mut Gen) -> Self { let ks = gen_vec::<K>(g); g.sub(|g| ks.into_iter().map(|k| (k, V::mk(g))).collect()) }
+    fn render(&self) -> String { list(self.iter().map(|(k, v)| pair(k.render(), v.render())).collect()) }
+    fn same(&self, o: &Self) -> bool { self.len() == o.len() && self.iter().all(|(k, v)| o.get_key_value(k).map_or(false, |(k2, v2)| k.same(k2) && v.same(v2))) }
+}
+impl<K: Describe + Eq + Hash, V: Describe> Describe for FxMap<K, V> {
+    fn desc() -> String { format!("map({},{})", K::desc(), V::desc()) }
+    fn depth() -> u32 { K::depth().max(V::depth()) + 1 }
+    fn mk(g: &mut Gen) -> Self { let ks = gen_vec::<K>(g); g.sub(|g| ks.into_iter().map(|k| (k, V::mk(g))).collect()) }
+    fn render(&self) -> String { list(self.iter().map(|(k, v)| pair(k.render(), v.render())).collect()) }
+    fn same(&self, o: &Self) -> bool { self.len() == o.len() && self.iter().all(|(k, v)| o.get_key_value(k).map_or(false, |(k2, v2)| k.same(k2) && v.same(v2))) }
+}
+impl<K: Describe + Eq + Hash, V: Describe> Describe for FxDashMap<K, V> {
+    fn desc() -> String { format!("map({},{})", K::desc(), V::desc()) }
+    fn depth() -> u32 { K::depth().max(V::depth()) + 1 }
+    fn mk(g: &mut Gen) -> Self { let ks = gen_vec::<K>(g); g.sub(|g| ks.into_iter().map(|k| (k, V::mk(g))).collect()) }
+    fn render(&self) -> String { list(self.iter().map(|r| pair(r.key().render(), r.value().render())).collect()) }
+    fn same(&self, o: &Self) -> bool { self.len() == o.len() && self.iter().all(|r| o.get(r.key()).map_or(false, |r2| r.key().same(r2.key()) && r.value().same(r2.value()))) }
+}
+
+// ------------------------------------------------------------------------------------------------
+// tuples, ranges
+// ------------------------------------------------------------------------------------------------
+macro_rules! tuple_impl { ($($n:ident $i:tt),+) => {
+    impl<$($n: Describe),+> Describe for ($($n,)+) {
+        fn desc() -> String { format!("tup({})", vec![$($n::desc()),+].join(",")) }
+        fn depth() -> u32 { 0u32 $(.max($n::depth()))+ + 1 }
+        fn mk(g: &mut Gen) -> Self { g.sub(|g| ($($n::mk(g),)+)) }
+        fn render(&self) -> String { list(vec![$(self.$i.render()),+]) }
+        fn same(&self, o: &Self) -> bool { true $(&& self.$i.same(&o.$i))+ }
+    }
+}}
+tuple_impl!(A 0);
+tuple_impl!(A 0, B 1);
+tuple_impl!(A 0, B 1, C 2);
+tuple_impl!(A 0, B 1, C 2, D 3);
+tuple_impl!(A 0, B 1, C 2, D 3, E 4);
+tuple_impl!(A 0, B 1, C 2, D 3, E 4, F 5);
+tuple_impl!(A 0, B 1, C 2, D 3, E 4, F 5, G 6);
+tuple_impl!(A 0, B 1, C 2, D 3, E 4, F 5, G 6, H 7);
+tuple_impl!(A 0, B 1, C 2, D 3, E 4, F 5, G 6, H 7, I 8);
+tuple_impl!(A 0, B 1, C 2, D 3, E 4, F 5, G 6, H 7, I 8, J 9);
+tuple_impl!(A 0, B 1, C 2, D 3, E 4, F 5, G 6, H 7, I 8, J 9, K 10);
+tuple_impl!(A 0, B 1, C 2, D 3, E 4, F 5, G 6, H 7, I 8, J 9, K 10, L 11);
+
+impl<T: Describe> Describe for Range<T> {
+    fn desc() -> String { format!("tup({},{})", T::desc(), T::desc()) }
+    fn depth() -> u32 { T::depth() + 1 }
+    fn mk(g: &mut Gen) -> Self { T::mk(g)..T::mk(g) }
+    fn render(&self) -> String { list(vec![self.start.render(), self.end.render()]) }
+    fn same(&self, o: &Self) -> bool { self.start.same(&o.start) && self.end.same(&o.end) }
+}
+impl<T: Describe> Describe for RangeInclusive<T> {
+    fn desc() -> String { format!("tup({},{})", T::desc(), T::desc()) }
+    fn depth() -> u32 { T::depth() + 1 }
+    fn mk(g: &mut Gen) -> Self { T::mk(g)..=T::mk(g) }
+    fn render(&self) -> String { list(vec![self.start().render(), self.end().render()]) }
+    fn same(&self, o: &Self) -> bool { self.start().same(o.start()) && self.end().same(o.end()) }
+}
+impl<T: Describe> Describe for RangeFrom<T> {
+    fn desc() -> String { format!("tup({})", T::desc()) }
+    fn depth() -> u32 { T::depth() + 1 }
+    fn mk(g: &mut Gen) -> Self { T::mk(g).. }
+    fn render(&self) -> String { list(vec![self.start.render()]) }
+    fn same(&self, o: &Self) -> bool { self.start.same(&o.start) }
+}
+impl<T: Describe> Describe for RangeTo<T> {
+    fn desc() -> String { format!("tup({})", T::desc()) }
+    fn depth() -> u32 { T::depth() + 1 }
+    fn mk(g: &mut Gen) -> Self { ..T::mk(g) }
+    fn render(&self) -> String { list(vec![self.end.render()]) }
+    fn same(&self, o: &Self) -> bool { self.end.same(&o.end) }
+}
+impl<T: Describe> Describe for RangeToInclusive<T> {
+    fn desc() -> String { format!("tup({})", T::desc()) }
+    fn depth() -> u32 { T::depth() + 1 }
+    fn mk(g: &mut Gen) -> Self { ..=T::mk(g) }
+    fn render(&self) -> String { list(vec![self.end.render()]) }
+    fn same(&self, o: &Self) -> bool { self.end.same(&o.end) }
+}
+
+// ------------------------------------------------------------------------------------------------
+// derived structs and enums (generic, with skipped fields)
+// ------------------------------------------------------------------------------------------------
+#[derive(Encode, Decode, Debug, Clone, Copy, PartialEq, Eq, PartialOrd, Ord, Hash)]
+#[serialize_crate(qbice_serialize)]
+pub struct UnitS;
+#[derive(Encode, Decode, Debug, Clone)]
+#[serialize_crate(qbice_serialize)]
+pub struct NamedS<T> { a: u16, #[serialize(skip)] s: u32, b: T, #[serialize(skip)] z: String, c: i64 }
+#[derive(Encode, Decode, Debug, Clone)]
+#[serialize_crate(qbice_serialize)]
+pub struct TupleS<T>(T, #[serialize(skip)] u8, i32);
+#[derive(Encode, Decode, Debug, Clone)]
+#[serialize_crate(qbice_serialize)]
+pub enum EnumE<T> { A, B(T), C { x: u32, #[serialize(skip)] y: u16, z: T }, D(#[serialize(skip)] u8, T, String), E }
+#[derive(Encode, Decode, Debug, Clone)]
+#[serialize_crate(qbice_serialize)]
+pub struct Pair<A, B> { l: A, r: B }
+#[derive(Encode, Decode, Debug, Clone)]
+#[serialize_crate(qbice_serialize)]
+pub enum Either<A, B> { L(A), R(B), N }
+macro_rules! big_enum { ($($v:ident),*) => {
+    #[derive(Encode, Decode, Debug, Clone, Copy, PartialEq, Eq, PartialOrd, Ord, Hash)]
+    #[serialize_crate(qbice_serialize)]
+    pub enum Big { $($v,)* W(u16) }
+    const BIG_UNITS: &[Big] = &[$(Big::$v),*];
+}}
+big_enum!(V0,V1,V2,V3,V4,V5,V6,V7,V8,V9,V10,V11,V12,V13,V14,V15,V16,V17,V18,V19,V20,V21,V22,V23,V24,V25,V26,V27,V28,V29,V30,V31,V32,V33,V34,V35,V36,V37,V38,V39,V40,V41,V42,V43,V44,V45,V46,V47,V48,V49,V50,V51,V52,V53,V54,V55,V56,V57,V58,V59,V60,V61,V62,V63,V64,V65,V66,V67,V68,V69,V70,V71,V72,V73,V74,V75,V76,V77,V78,V79,V80,V81,V82,V83,V84,V85,V86,V87,V88,V89,V90,V91,V92,V93,V94,V95,V96,V97,V98,V99,V100,V101,V102,V103,V104,V105,V106,V107,V108,V109,V110,V111,V112,V113,V114,V115,V116,V117,V118,V119,V120,V121,V122,V123,V124,V125,V126,V127,V128,V129);
+
+impl Describe for UnitS {
+    fn desc() -> String { "tup()".into() }
+    fn mk(_: &mut Gen) -> Self { UnitS }
+    fn render(&self) -> String { "[]".into() }
+    fn same(&self, _: &Self) -> bool { true }
+}
+impl<T: Describe> Describe for NamedS<T> {
+    fn desc() -> String { format!("tup(u16,skip(0),{},skip(s),i64)", T::desc()) }
+    fn depth() -> u32 { T::depth() + 1 }
+    fn mk(g: &mut Gen) -> Self { NamedS { a: u16::mk(g), s: u32::mk(g), b: g.sub(|g| T::mk(g)), z: gen_string(g), c: i64::mk(g) } }
+    fn render(&self) -> String { list(vec![self.a.render(), self.s.render(), self.b.render(), self.z.render(), self.c.render()]) }
+    fn same(&self, o: &Self) -> bool { self.a == o.a && o.s == 0 && self.b.same(&o.b) && o.z.is_empty() && self.c == o.c }
+}
+impl<T: Describe> Describe for TupleS<T> {
+    fn desc() -> String { format!("tup({},skip(0),i32)", T::desc()) }
+    fn depth() -> u32 { T::depth() + 1 }
+    fn mk(g: &mut Gen) -> Self { TupleS(g.sub(|g| T::mk(g)), u8::mk(g), i32::mk(g)) }
+    fn render(&self) -> String { list(vec![self.0.render(), self.1.render(), self.2.render()]) }
+    fn same(&self, o: &Self) -> bool { self.0.same(&o.0) && o.1 == 0 && self.2 == o.2 }
+}
+impl<T: Describe> Describe for EnumE<T> {
+    fn desc() -> String { let t = T::desc(); format!("enum(tup(),tup({t}),tup(u32,skip(0),{t}),tup(skip(0),{t},str),tup())") }
+    fn depth() -> u32 { T::depth() + 1 }
+    fn mk(g: &mut Gen) -> Self {
+        match g.rng.below(5) {
+            0 => EnumE::A, 1 => EnumE::B(g.sub(|g| T::mk(g))),
+            2 => EnumE::C { x: u32::mk(g), y: u16::mk(g), z: g.sub(|g| T::mk(g)) },
+            3 => EnumE::D(u8::mk(g), g.sub(|g| T::mk(g)), gen_string(g)), _ => EnumE::E }
+    }
+    fn render(&self) -> String {
+        match self {
+            EnumE::A => "#0([])".into(), EnumE::B(t) => format!("#1([{}])", t.render()),
+            EnumE::C { x, y, z } => format!("#2([{},{},{}])", x.render(), y.render(), z.render()),
+            EnumE::D(a, t, s) => format!("#3([{},{},{}])", a.render(), t.render(), s.render()), EnumE::E => "#4([])".into() }
+    }
+    fn same(&self, o: &Self) -> bool {
+        match (self, o) {
+            (EnumE::A, EnumE::A) | (EnumE::E, EnumE::E) => true,
+            (EnumE::B(a), EnumE::B(b)) => a.same(b),
+            (EnumE::C { x, z, .. }, EnumE::C { x: x2, y: y2, z: z2 }) => x == x2 && *y2 == 0 && z.same(z2),
+            (EnumE::D(_, t, s), EnumE::D(a2, t2, s2)) => *a2 == 0 && t.same(t2) && s == s2,
+            _ => false }
+    }
+}
+impl<A: Describe, B: Describe> Describe for Pair<A, B> {
+    fn desc() -> String { format!("tup({},{})", A::desc(), B::desc()) }
+    fn depth() -> u32 { A::depth().max(B::depth()) + 1 }
+    fn mk(g: &mut Gen) -> Self { g.sub(|g| Pair { l: A::mk(g), r: B::mk(g) }) }
+    fn render(&self) -> String { list(vec![self.l.render(), self.r.render()]) }
+    fn same(&self, o: &Self) -> bool { self.l.same(&o.l) && self.r.same(&o.r) }
+}
+impl<A: Describe, B: Describe> Describe for Either<A, B> {
+    fn desc() -> String { format!("enum(tup({}),tup({}),tup())", A::desc(), B::desc()) }
+    fn depth() -> u32 { A::depth().max(B::depth()) + 1 }
+    fn mk(g: &mut Gen) -> Self { match g.rng.below(5) { 0 | 1 => Either::L(g.sub(|g| A::mk(g))), 2 | 3 => Either::R(g.sub(|g| B::mk(g))), _ => Either::N } }
+    fn render(&self) -> String { match self { Either::L(a) => format!("#0([{}])", a.render()), Either::R(b) => format!("#1([{}])", b.render()), Either::N => "#2([])".into() } }
+    fn same(&self, o: &Self) -> bool { match (self, o) { (Either::L(a), Either::L(b)) => a.same(b), (Either::R(a), Either::R(b)) => a.same(b), (Either::N, Either::N) => true, _ => false } }
+}
+impl Describe for Big {
+    fn desc() -> String { let mut v = vec!["tup()".to_string(); BIG_UNITS.len()]; v.push("tup(u16)".into()); format!("enum({})", v.join(",")) }
+    fn mk(g: &mut Gen) -> Self { if g.rng.chance(1, 4) { Big::W(u16::mk(g)) } else if g.rng.chance(1, 2) { *g.rng.pick(&[Big::V0, Big::V1, Big::V126, Big::V127, Big::V128, Big::V129]) } else { *g.rng.pick(BIG_UNITS) } }
+    fn render(&self) -> String { match self { Big::W(x) => format!("#{}([{}])", BIG_UNITS.len(), x), u => format!("#{}([])", BIG_UNITS.iter().position(|b| b == u).unwrap()) } }
+    fn same(&self, o: &Self) -> bool { self == o }
+    fn edges() -> Vec<Self> { let mut v = BIG_UNITS.to_vec(); v.push(Big::W(0)); v.push(Big::W(65535)); v }
+}
+
+// ------------------------------------------------------------------------------------------------
+// BitVec (feature bitvec)
+// ------------------------------------------------------------------------------------------------
+macro_rules! bitvec_impl { ($($t:ty, $o:ty, $w:expr, $oc:expr, $bits:expr);*) => {$(
+    impl Describe for BitVec<$t, $o> {
+        fn desc() -> String { format!("bv({},{})", $w, $oc) }
+        fn mk(g: &mut Gen) -> Self {
+            let len: usize = if g.rng.chance(1, 10) { 0 } else if g.rng.chance(1, 2) {
+                let k = g.rng.range(1, 4) as usize; let base = *g.rng.pick(&[8usize, $bits]) * k; (base + 1 - g.rng.below(3) as usize).max(1)
+            } else { g.rng.range(1, 200) as usize };
+            if len == 0 { return BitVec::new(); }
+            let nw = (len + $bits - 1) / $bits;
+            let words: Vec<$t> = (0..nw).map(|_| <$t>::mk(g)).collect();
+            let mut bv = BitVec::<$t, $o>::from_vec(words);
+            bv.truncate(len);
+            bv
+        }
+        fn render(&self) -> String { format!("b{}:{}", self.len(), self.as_raw_slice().iter().map(|w| w.to_string()).collect::<Vec<_>>().join(".")) }
+        fn same(&self, o: &Self) -> bool { self.len() == o.len() && self == o }
+    }
+)*}}
+bitvec_impl!(u8, Lsb0, "8", "L", 8; u8, Msb0, "8", "M", 8; u16, Lsb0, "16", "L", 16; u16, Msb0, "16", "M", 16;
+             u32, Lsb0, "32", "L", 32; u32, Msb0, "32", "M", 32; u64, Lsb0, "64", "L", 64; u64, Msb0, "64", "M", 64;
+             usize, Lsb0, "size", "L", 64; usize, Msb0, "size", "M", 64);
+
+// ------------------------------------------------------------------------------------------------
+// running the real codec: outcome classes, tracing encoder, guarded decoder
+// ------------------------------------------------------------------------------------------------
+#[derive(Clone, Debug, PartialEq)]
+pub enum Outcome { Ok { render: String, consumed: usize }, Eof, Invalid, Other(String), Panic }
+impl Outcome {
+    fn show(&self) -> String {
+        match self {
+            Outcome::Ok { render, consumed } => format!("ok|{}|{}", render, consumed),
+            Outcome::Eof => "eof".into(), Outcome::Invalid => "invalid".into(),
+            Outcome::Other(k) => format!("other:{k}"), Outcome::Panic => "panic".into() }
+    }
+    fn class(&self) -> &'static str { match self { Outcome::Ok { .. } => "ok", Outcome::Eof => "eof", Outcome::Invalid => "invalid", Outcome::Other(_) => "other", Outcome::Panic => "panic" } }
+}
+fn classify(e: &io::Error) -> Outcome {
+    match e.kind() { io::ErrorKind::UnexpectedEof => Outcome::Eof, io::ErrorKind::InvalidData => Outcome::Invalid, k => Outcome::Other(format!("{k:?}")) }
+}
+
+#[derive(Clone, Copy, Debug, PartialEq)]
+pub enum Kind { U8, U16, U32, U64, U128, Usize, I8, I16, I32, I64, I128, Isize, Bool, Char, F32, F64, Raw }
+#[derive(Clone, Debug)]
+pub struct Rec { kind: Kind, off: usize, len: usize }
+/// An `Encoder` that delegates every primitive to the real `PostcardEncoder` and records where each
+/// primitive landed — the map used to mutate streams structurally.
+pub struct Tracer { inner: PostcardEncoder<Vec<u8>>, recs: Vec<Rec> }
+impl Tracer {
+    fn new() -> Self { Tracer { inner: PostcardEncoder::new(Vec::new()), recs: vec![] } }
+    fn rec<R>(&mut self, kind: Kind, f: impl FnOnce(&mut PostcardEncoder<Vec<u8>>) -> R) -> R {
+        let off = self.inner.get_ref().len();
+        let r = f(&mut self.inner);
+        let len = self.inner.get_ref().len() - off;
+        self.recs.push(Rec { kind, off, len });
+        r
+    }
+}
+impl Encoder for Tracer {
+    fn emit_u8(&mut self, v: u8) -> io::Result<()> { self.rec(Kind::U8, |e| e.emit_u8(v)) }
+    fn emit_u16(&mut self, v: u16) -> io::Result<()> { self.rec(Kind::U16, |e| e.emit_u16(v)) }
+    fn emit_u32(&mut self, v: u32) -> io::Result<()> { self.rec(Kind::U32, |e| e.emit_u32(v)) }
+    fn emit_u64(&mut self, v: u64) -> io::Result<()> { self.rec(Kind::U64, |e| e.emit_u64(v)) }
+    fn emit_u128(&mut self, v: u128) -> io::Result<()> { self.rec(Kind::U128, |e| e.emit_u128(v)) }
+    fn emit_usize(&mut self, v: usize) -> io::Result<()> { self.rec(Kind::Usize, |e| e.emit_usize(v)) }
+    fn emit_i8(&mut self, v: i8) -> io::Result<()> { self.rec(Kind::I8, |e| e.emit_i8(v)) }
+    fn emit_i16(&mut self, v: i16) -> io::Result<()> { self.rec(Kind::I16, |e| e.emit_i16(v)) }
+    fn emit_i32(&mut self, v: i32) -> io::Result<()> { self.rec(Kind::I32, |e| e.emit_i32(v)) }
+    fn emit_i64(&mut self, v: i64) -> io::Result<()> { self.rec(Kind::I64, |e| e.emit_i64(v)) }
+    fn emit_i128(&mut self, v: i128) -> io::Result<()> { self.rec(Kind::I128, |e| e.emit_i128(v)) }
+    fn emit_isize(&mut self, v: isize) -> io::Result<()> { self.rec(Kind::Isize, |e| e.emit_isize(v)) }
+    fn emit_raw_bytes(&mut self, s: &[u8]) -> io::Result<()> { self.rec(Kind::Raw, |e| e.emit_raw_bytes(s)) }
+    fn emit_bool(&mut self, v: bool) -> io::Result<()> { self.rec(Kind::Bool, |e| e.emit_bool(v)) }
+    fn emit_char(&mut self, v: char) -> io::Result<()> { self.rec(Kind::Char, |e| e.emit_char(v)) }
+    fn emit_f32(&mut self, v: f32) -> io::Result<()> { self.rec(Kind::F32, |e| e.emit_f32(v)) }
+    fn emit_f64(&mut self, v: f64) -> io::Result<()> { self.rec(Kind::F64, |e| e.emit_f64(v)) }
+    fn emit_str(&mut self, v: &str) -> io::Result<()> { self.emit_usize(v.len())?; self.emit_raw_bytes(v.as_bytes()) }
+    fn emit_bytes(&mut self, v: &[u8]) -> io::Result<()> { self.emit_usize(v.len())?; self.emit_raw_bytes(v) }
+}
+
+/// A `Decoder` that delegates every primitive to the real `PostcardDecoder` but stops (and says so) when
+/// a `usize` larger than `LIMIT` is read: a mutated length prefix must not make the real code
+/// pre-allocate terabytes (allocation failure aborts the process, it cannot be caught).  A tripped case
+/// is discarded and counted; an untripped one is re-run on the plain `PostcardDecoder`.
+pub struct Guard<'a> { inner: PostcardDecoder<&'a [u8]>, tripped: bool, limit: usize }
+const LIMIT: usize = 1 << 16;
+impl<'a> Guard<'a> {
+    fn new(stream: &'a [u8], limit: usize) -> Self { Guard { inner: PostcardDecoder::new(stream), tripped: false, limit } }
+    fn remaining(&self) -> usize { self.inner.get_ref().len() }
+}
+impl<'a> Decoder for Guard<'a> {
+    fn read_u8(&mut self) -> io::Result<u8> { self.inner.read_u8() }
+    fn read_u16(&mut self) -> io::Result<u16> { self.inner.read_u16() }
+    fn read_u32(&mut self) -> io::Result<u32> { self.inner.read_u32() }
+    fn read_u64(&mut self) -> io::Result<u64> { self.inner.read_u64() }
+    fn read_u128(&mut self) -> io::Result<u128> { self.inner.read_u128() }
+    fn read_usize(&mut self) -> io::Result<usize> {
+        let v = self.inner.read_usize()?;
+        if v > self.limit { self.tripped = true; return Err(io::Error::new(io::ErrorKind::Other, "guard")); }
+        Ok(v)
+    }
+    fn read_i8(&mut self) -> io::Result<i8> { self.inner.read_i8() }
+    fn read_i16(&mut self) -> io::Result<i16> { self.inner.read_i16() }
+    fn read_i32(&mut self) -> io::Result<i32> { self.inner.read_i32() }
+    fn read_i64(&mut self) -> io::Result<i64> { self.inner.read_i64() }
+    fn read_i128(&mut self) -> io::Result<i128> { self.inner.read_i128() }
+    fn read_isize(&mut self) -> io::Result<isize> { self.inner.read_isize() }
+    fn read_raw_bytes(&mut self, len: usize) -> io::Result<Vec<u8>> { self.inner.read_raw_bytes(len) }
+    fn read_bool(&mut self) -> io::Result<bool> { self.inner.read_bool() }
+    fn read_char(&mut self) -> io::Result<char> { self.inner.read_char() }
+    fn read_f32(&mut self) -> io::Result<f32> { self.inner.read_f32() }
+    fn read_f64(&mut self) -> io::Result<f64> { self.inner.read_f64() }
+}
+
+/// All encoding goes through `Tracer` and all decoding through `Guard` (both only wrap the primitives
+/// of the real `PostcardEncoder` / `PostcardDecoder`; the `Encode`/`Decode` impls and the top-level
+/// `Encoder::encode` / `Decoder::decode` entry points are the real ones) — one instantiation of the
+/// generic impls per type keeps the build time of several hundred types reasonable.
+fn trace_real<T: Encode>(v: &T, plugin: &Plugin) -> (Vec<u8>, Vec<Rec>) {
+    let mut t = Tracer::new();
+    t.encode(v, plugin).expect("encode into a Vec cannot fail");
+    (t.inner.into_inner(), t.recs)
+}
+fn encode_real<T: Encode>(v: &T, plugin: &Plugin) -> Vec<u8> { trace_real(v, plugin).0 }
+/// decode one `T` with the real top-level entry point; returns the value or the error class
+fn decode_real<T: Decode>(dec: &mut Guard, plugin: &Plugin) -> Result<T, Outcome> {
+    match catch_unwind(AssertUnwindSafe(|| dec.decode::<T>(plugin))) {
+        Ok(Ok(v)) => Ok(v), Ok(Err(e)) => Err(classify(&e)), Err(_) => Err(Outcome::Panic) }
+}
+
+// ------------------------------------------------------------------------------------------------
+// type-erased values and the registry of concrete types
+// ------------------------------------------------------------------------------------------------
+pub trait Erased {
+    fn desc(&self) -> String;
+    fn render(&self) -> String;
+    fn encode_to(&self, enc: &mut Tracer, plugin: &Plugin);
+    fn trace(&self, plugin: &Plugin) -> (Vec<u8>, Vec<Rec>);
+    /// decode a `T` from `dec`; the outcome, and (if ok) whether it equals `self` by the oracle
+    fn decode_cmp(&self, dec: &mut Guard, plugin: &Plugin, star: bool) -> (Outcome, bool);
+}
+pub struct Holder<T>(pub T);
+fn unordered(desc: &str) -> bool { desc.contains("set(") || desc.contains("map(") }
+impl<T: Describe> Erased for Holder<T> {
+    fn desc(&self) -> String { T::desc() }
+    fn render(&self) -> String { self.0.render() }
+    fn encode_to(&self, enc: &mut Tracer, plugin: &Plugin) { enc.encode(&self.0, plugin).expect("vec write") }
+    fn trace(&self, plugin: &Plugin) -> (Vec<u8>, Vec<Rec>) { trace_real(&self.0, plugin) }
+    fn decode_cmp(&self, dec: &mut Guard, plugin: &Plugin, star: bool) -> (Outcome, bool) {
+        let before = dec.remaining();
+        match decode_real::<T>(dec, plugin) {
+            Ok(d) => {
+                let consumed = before - dec.remaining();
+                let render = if star { "*".to_string() } else { render_decoded(&d) };
+                (Outcome::Ok { render, consumed }, self.0.same(&d))
+            }
+            Err(o) => (o, false),
+        }
+    }
+}
+/// rendering of a decoded value: unordered collections sorted.  The sort is applied textually on the
+/// rendering of the decoded value by re-parsing it along the descriptor (see `canon`).
+fn render_decoded<T: Describe>(d: &T) -> String { canon(&T::desc(), &d.render()) }
+
+pub struct Entry {
+    pub rust: &'static str, pub desc: String, pub depth: u32, pub f7: bool,
+    pub mk: fn(&mut Gen) -> Box<dyn Erased>,
+    pub edges: fn() -> Vec<Box<dyn Erased>>,
+    pub from_u16: fn(u16) -> Option<Box<dyn Erased>>,
+}
+fn entry<T: Describe>() -> Entry {
+    let desc = T::desc();
+    let f7 = ["bv(16", "bv(32", "bv(64", "bv(size"].iter().any(|p| desc.contains(p));
+    Entry { rust: type_name::<T>(), desc, depth: T::depth(), f7,
+        mk: |g| Box::new(Holder(T::mk(g))),
+        edges: || T::edges().into_iter().map(|v| Box::new(Holder(v)) as Box<dyn Erased>).collect(),
+        from_u16: |x| T::from_u16(x).map(|v| Box::new(Holder(v)) as Box<dyn Erased>) }
+}
+
+// ---- canonical form of a rendering: entries of set(..)/map(..) nodes sorted -----------------------
+#[derive(Debug, Clone)]
+enum D { Leaf, Opt(Box<D>), Res(Box<D>, Box<D>), Seq(Box<D>), Set(Box<D>), Map(Box<D>, Box<D>), Arr(Box<D>), Tup(Vec<D>), Enum(Vec<D>), Bound(Box<D>) }
+struct P<'a> { s: &'a [u8], i: usize }
+impl<'a> P<'a> {
+    fn eat(&mut self, c: u8) { assert!(self.s[self.i] == c, "expected {} at {} in {}", c as char, self.i, String::from_utf8_lossy(self.s)); self.i += 1; }
+    fn peek(&self) -> u8 { if self.i < self.s.len() { self.s[self.i] } else { 0 } }
+    fn ident(&mut self) -> String { let st = self.i; while self.i < self.s.len() && (self.s[self.i].is_ascii_alphanumeric()) { self.i += 1; } String::from_utf8_lossy(&self.s[st..self.i]).into() }
+    fn args(&mut self) -> Vec<D> { let mut v = vec![]; self.eat(b'('); if self.peek() == b')' { self.i += 1; return v; } loop { v.push(self.desc()); if self.peek() == b',' { self.i += 1; } else { self.eat(b')'); return v; } } }
+    fn desc(&mut self) -> D {
+        let id = self.ident();
+        match id.as_str() {
+            "opt" => { let mut a = self.args(); D::Opt(Box::new(a.remove(0))) }
+            "res" => { let mut a = self.args(); let x = a.remove(0); D::Res(Box::new(x), Box::new(a.remove(0))) }
+            "seq" => { let mut a = self.args(); D::Seq(Box::new(a.remove(0))) }
+            "set" => { let mut a = self.args(); D::Set(Box::new(a.remove(0))) }
+            "map" => { let mut a = self.args(); let x = a.remove(0); D::Map(Box::new(x), Box::new(a.remove(0))) }
+            "bound" => { let mut a = self.args(); D::Bound(Box::new(a.remove(0))) }
+            "arr" => { self.eat(b'('); while self.peek() != b',' { self.i += 1; } self.i += 1; let d = self.desc(); self.eat(b')'); D::Arr(Box::new(d)) }
+            "tup" => D::Tup(self.args()),
+            "enum" => D::Enum(self.args()),
+            "skip" | "bv" => { let mut depth = 0; loop { let c = self.s[self.i]; self.i += 1; if c == b'(' { depth += 1 } else if c == b')' { depth -= 1; if depth == 0 { break; } } } D::Leaf }
+            _ => D::Leaf,
+        }
+    }
+    /// re-emit the value at the cursor in canonical form
+    fn val(&mut self, d: &D) -> String {
+        match d {
+            D::Leaf => { let st = self.i; let mut depth = 0i32;
+                while self.i < self.s.len() { let c = self.s[self.i]; if c == b'[' || c == b'(' { depth += 1 } else if c == b']' || c == b')' { if depth == 0 { break; } depth -= 1 } else if c == b',' && depth == 0 { break; } self.i += 1; }
+                String::from_utf8_lossy(&self.s[st..self.i]).into() }
+            D::Opt(t) | D::Bound(t) => { self.eat(b'#'); let tag = self.ident(); self.eat(b'('); let r = if tag == "0" { self.val(&D::Leaf) } else { self.val(t) }; self.eat(b')'); format!("#{tag}({r})") }
+            D::Res(t, e) => { self.eat(b'#'); let tag = self.ident(); self.eat(b'('); let r = if tag == "0" { self.val(e) } else { self.val(t) }; self.eat(b')'); format!("#{tag}({r})") }
+            D::Enum(vs) => { self.eat(b'#'); let tag = self.ident(); self.eat(b'('); let i: usize = tag.parse().unwrap(); let r = self.val(&vs[i]); self.eat(b')'); format!("#{tag}({r})") }
+            D::Seq(t) | D::Arr(t) => list(self.items(|p, _| p.val(t))),
+            D::Set(t) => sorted_list(self.items(|p, _| p.val(t))),
+            D::Map(k, v) => { let kv = D::Tup(vec![(**k).clone(), (**v).clone()]); sorted_list(self.items(|p, _| p.val(&kv))) }
+            D::Tup(ts) => list(self.items(|p, i| p.val(&ts[i]))),
+        }
+    }
+    fn items(&mut self, mut f: impl FnMut(&mut Self, usize) -> String) -> Vec<String> {
+        let mut v = vec![]; self.eat(b'['); if self.peek() == b']' { self.i += 1; return v; }
+        loop { let i = v.len(); v.push(f(self, i)); if self.peek() == b',' { self.i += 1; } else { self.eat(b']'); return v; } }
+    }
+}
+fn canon(desc: &str, rendering: &str) -> String {
+    if !unordered(desc) { return rendering.to_string(); }
+    let d = P { s: desc.as_bytes(), i: 0 }.desc();
+    P { s: rendering.as_bytes(), i: 0 }.val(&d)
+}
+
+// ------------------------------------------------------------------------------------------------
+// the universe, instantiated to nesting depth 3 by macro
+// ------------------------------------------------------------------------------------------------
+type Arr0<T> = [T; 0];
+type Arr1<T> = [T; 1];
+type Arr3<T> = [T; 3];
+type BoxSl<T> = Box<[T]>;
+type RcSl<T> = Rc<[T]>;
+type ArcSl<T> = Arc<[T]>;
+type SV<T> = SmallVec<[T; 2]>;
+type Tup1<T> = (T,);
+type CowT<T> = Cow<'static, T>;
+type CowSl<T> = Cow<'static, [T]>;
+type BSet<T> = BTreeSet<T>;
+
+macro_rules! reg { ($v:ident; $($t:ty),* $(,)?) => { $( $v.push(entry::<$t>()); )* } }
+macro_rules! cross {
+    ($v:ident; [$($c:ident),*]; $ts:tt) => { $( cross!(@one $v; $c; $ts); )* };
+    (@one $v:ident; $c:ident; [$($t:ty),*]) => { $( $v.push(entry::<$c<$t>>()); )* };
+}
+macro_rules! cross2 {
+    ($v:ident; [$($c:ident),*]; $ts:tt) => { $( cross2!(@one $v; $c; $ts); )* };
+    (@one $v:ident; $c:ident; [$(($a:ty, $b:ty)),*]) => { $( $v.push(entry::<$c<$a, $b>>()); )* };
+}
+
+pub fn registry() -> Vec<Entry> {
+    let mut v: Vec<Entry> = vec![];
+    // depth 0: every leaf
+    reg!(v; u8, u16, u32, u64, u128, usize, i8, i16, i32, i64, i128, isize,
+         NonZeroU8, NonZeroU16, NonZeroU32, NonZeroU64, NonZeroU128, NonZeroUsize,
+         NonZeroI8, NonZeroI16, NonZeroI32, NonZeroI64, NonZeroI128, NonZeroIsize,
+         bool, char, f32, f64, (), RangeFull, String, PathBuf, Duration, UnitS, Big,
+         AtomicBool, AtomicI8, AtomicI16, AtomicI32, AtomicI64, AtomicIsize, AtomicU8, AtomicU16, AtomicU32, AtomicU64, AtomicUsize,
+         Box<str>, Rc<str>, Arc<str>, Box<Path>, Rc<Path>, Arc<Path>, Cow<'static, str>,
+         BitVec<u8, Lsb0>, BitVec<u8, Msb0>);
+    // finding F7: stores wider than a byte (kept last in any stream, see `f7`)
+    reg!(v; BitVec<u16, Lsb0>, BitVec<u16, Msb0>, BitVec<u32, Lsb0>, BitVec<u32, Msb0>, BitVec<u64, Lsb0>, BitVec<u64, Msb0>,
+         BitVec<usize, Lsb0>, BitVec<usize, Msb0>, (u8, BitVec<usize, Lsb0>), Option<BitVec<u32, Msb0>>);
+    // depth 1: every unary constructor over a spread of leaves
+    cross!(v; [Option, Vec, VecDeque, LinkedList, Box, Rc, Arc, RefCell, Wrapping, Reverse, Range, RangeInclusive,
+               RangeFrom, RangeTo, RangeToInclusive, Bound, PhantomData, NamedS, TupleS, EnumE,
+               Arr0, Arr1, Arr3, BoxSl, RcSl, ArcSl, SV, Tup1];
+           [u16, i64, u128, String, f64]);
+    cross!(v; [Option, Vec, Bound, EnumE, Arr3]; [u8, i8, u32, i16, i32, u64, i128, usize, isize, bool, char, f32, (), NonZeroU16, NonZeroI64, Duration, Big, AtomicU32]);
+    cross!(v; [BSet, FxSet, FxDashSet]; [u16, String, i64, NonZeroU32, Big, char, bool]);
+    cross!(v; [Cell]; [u8, i16, u64, bool, char, f32, NonZeroI8]);
+    cross!(v; [CowT]; [u32, String, i128]);
+    cross!(v; [CowSl]; [u8, u16, String]);
+    cross2!(v; [Result, Pair, Either, BTreeMap, FxMap, FxDashMap]; [(u8, u8), (u16, String), (String, i64), (i32, u128), (char, bool)]);
+    reg!(v; (u8, i16), (u16, String, f32), (u8, u16, u32, u64), (i8, i16, i32, i64, i128), (bool, char, (), String, u8, u8),
+         (u8, u8, u8, u8, u8, u8, u8), (u16, u16, u16, u16, u16, u16, u16, u16), (i16, i16, i16, i16, i16, i16, i16, i16, i16),
+         (u32, u8, u32, u8, u32, u8, u32, u8, u32, u8), (u8, u16, u32, u64, u128, i8, i16, i32, i64, i128, bool),
+         (u8, u16, u32, u64, u128, usize, i8, i16, i32, i64, i128, isize), [u16; 32], [String; 2],
+         Vec<BitVec<u8, Lsb0>>, Option<BitVec<u8, Msb0>>, (BitVec<u8, Lsb0>, u16));
+    // depth 2: every unary constructor over depth-1 types
+    cross!(v; [Option, Vec, VecDeque, LinkedList, Box, Rc, Arc, RefCell, Wrapping, Reverse, Range, RangeInclusive,
+               RangeFrom, RangeTo, RangeToInclusive, Bound, PhantomData, NamedS, TupleS, EnumE,
+               Arr0, Arr1, Arr3, BoxSl, RcSl, ArcSl, SV, Tup1];
+           [Option<u16>, Vec<String>, (u8, i64), EnumE<i16>, FxMap<u16, String>]);
+    cross!(v; [BSet, FxSet, FxDashSet]; [Option<u32>, Vec<u8>, (u8, u16), Box<i16>, Reverse<u64>, BSet<u8>]);
+    cross!(v; [Cell]; [Option<u32>, (u8, u16), Wrapping<i64>, [u16; 3]]);
+    cross!(v; [CowT]; [Vec<u8>, Option<i64>, (u8, u8)]);
+    cross!(v; [CowSl]; [Option<u8>, (u8, String)]);
+    cross2!(v; [Result, Pair, Either, BTreeMap, FxMap, FxDashMap]; [(Option<u8>, Vec<u16>), ((u8, u8), String), (Vec<u8>, Option<i64>), (Box<u16>, EnumE<u8>)]);
+    // depth 3
+    cross!(v; [Option, Vec, VecDeque, LinkedList, Box, Rc, Arc, RefCell, Wrapping, Reverse, Range, RangeInclusive,
+               RangeFrom, RangeTo, RangeToInclusive, Bound, PhantomData, NamedS, TupleS, EnumE,
+               Arr0, Arr1, Arr3, BoxSl, RcSl, ArcSl, SV, Tup1];
+           [Vec<Option<i32>>, Option<(u16, String)>, NamedS<Vec<u8>>, FxMap<u8, Vec<u16>>]);
+    cross!(v; [BSet, FxSet, FxDashSet]; [Vec<Option<u8>>, (u8, Option<String>), Option<Box<i32>>]);
+    cross2!(v; [Result, Pair, Either, BTreeMap, FxMap, FxDashMap]; [(Vec<Option<u8>>, Option<Vec<u16>>), (Option<(u8, u8)>, Result<u8, String>)]);
+    reg!(v; Vec<Vec<Vec<u16>>>, Option<Option<Option<i64>>>, Result<Result<u8, String>, Vec<Option<i16>>>,
+         BTreeMap<String, BTreeMap<u16, Vec<u8>>>, (Vec<(u8, Option<String>)>, EnumE<EnumE<u8>>, Bound<Range<i32>>),
+         Vec<Vec<Vec<Vec<Option<u8>>>>>, NamedS<TupleS<EnumE<Pair<u8, Either<u16, String>>>>>, Arc<Rc<Box<RefCell<Cell<u16>>>>>,
+         Vec<(Duration, NonZeroU64, Big)>, Option<Vec<Bound<NonZeroI16>>>);
+    v
+}
+
+// ------------------------------------------------------------------------------------------------
+// statistics, oracle bookkeeping
+// ------------------------------------------------------------------------------------------------
+#[derive(Default)]
+pub struct Stats {
+    lines: u64, nontrivial: HashSet<u64>, by_stage: BTreeMap<String, u64>, by_depth: BTreeMap<u32, u64>,
+    enc_len: BTreeMap<String, u64>, classes: BTreeMap<String, u64>, mutations: BTreeMap<String, u64>,
+    rust_types: HashSet<&'static str>, descs: HashSet<String>, guard_skipped: u64, hyp_violated: u64,
+    failures: Vec<(String, String, String)>, fail_sigs: HashSet<String>, samples: Vec<String>,
+}
+fn fnv(s: &str) -> u64 { let mut h = 0xcbf29ce484222325u64; for b in s.bytes() { h ^= b as u64; h = h.wrapping_mul(0x100000001b3); } h }
+impl Stats {
+    fn bump(m: &mut BTreeMap<String, u64>, k: &str) { *m.entry(k.to_string()).or_insert(0) += 1; }
+    fn line(&mut self, out: &mut Out, stage: &str, op: &str, imp: &str, nontrivial: bool) {
+        out.line(op, imp); self.lines += 1; Self::bump(&mut self.by_stage, stage);
+        if nontrivial { self.nontrivial.insert(fnv(op)); }
+        if self.samples.len() < 6 && (self.lines % 997 == 1) { self.samples.push(format!("{op} => {imp}")); }
+    }
+    fn len_bucket(&mut self, n: usize) { let b = match n { 0 => "0", 1 => "1", 2..=3 => "2-3", 4..=9 => "4-9", 10..=31 => "10-31", 32..=127 => "32-127", _ => "128+" }; Self::bump(&mut self.enc_len, b); }
+    fn fail(&mut self, sig: String, desc: String, case: String) {
+        if self.fail_sigs.insert(sig.clone()) || self.failures.len() < 40 { if self.failures.len() < 200 { self.failures.push((sig, desc, case)); } }
+    }
+}
+fn verdict(o: &Outcome, same: bool, enc_len: usize) -> Option<&'static str> {
+    match o {
+        Outcome::Ok { consumed, .. } => if !same { Some("mismatch") } else if *consumed != enc_len { Some("consumed") } else { None },
+        Outcome::Eof => Some("error-eof"), Outcome::Invalid => Some("error-invalid"), Outcome::Other(_) => Some("error-other"), Outcome::Panic => Some("panic"),
+    }
+}
+fn junk(rng: &mut Rng) -> Vec<u8> { let n = rng.below(4); (0..n).map(|_| if rng.chance(1, 3) { *rng.pick(&[0u8, 1, 0x80, 0xff]) } else { rng.next() as u8 }).collect() }
+
+fn value_case(out: &mut Out, st: &mut Stats, stage: &str, e: &dyn Erased, depth: u32, rng: &mut Rng, plugin: &Plugin) {
+    let desc = e.desc();
+    let val = e.render();
+    let mut enc = Tracer::new();
+    e.encode_to(&mut enc, plugin);
+    let bytes = enc.inner.into_inner();
+    let j = junk(rng);
+    let mut stream = bytes.clone(); stream.extend_from_slice(&j);
+    let mut dec = Guard::new(&stream[..], usize::MAX);
+    let (o, same) = e.decode_cmp(&mut dec, plugin, false);
+    let op = format!("V|{}|{}|{}", desc, val, hex(&j));
+    let imp = format!("{}|{}", hex(&bytes), o.show());
+    st.line(out, stage, &op, &imp, bytes.len() >= 2);
+    st.len_bucket(bytes.len()); *st.by_depth.entry(depth).or_insert(0) += 1;
+    if let Some(kind) = verdict(&o, same, bytes.len()) {
+        st.fail(format!("{kind}:{desc}"), format!("decode(encode v) {kind}: type {desc} value {val} bytes {} -> {}", hex(&bytes), o.show()), op);
+    }
+}
+
+fn pair_case(out: &mut Out, st: &mut Stats, reg: &[Entry], rng: &mut Rng, plugin: &Plugin, size: u32) {
+    let k = rng.range(2, 4) as usize;
+    let mut idx: Vec<usize> = (0..k).map(|_| rng.below(reg.len() as u64) as usize).collect();
+    // a type hit by finding F7 desynchronises everything after it: allow it in the last position only
+    for i in 0..k - 1 { while reg[idx[i]].f7 { idx[i] = rng.below(reg.len() as u64) as usize; } }
+    let mut g = Gen { rng: Rng(rng.next()), size };
+    let vals: Vec<Box<dyn Erased>> = idx.iter().map(|i| (reg[*i].mk)(&mut g)).collect();
+    let mut enc = Tracer::new();
+    let mut ends = vec![];
+    for v in &vals { v.encode_to(&mut enc, plugin); ends.push(enc.inner.get_ref().len()); }
+    let bytes = enc.inner.into_inner();
+    let j = junk(rng);
+    let mut stream = bytes.clone(); stream.extend_from_slice(&j);
+    let mut dec = Guard::new(&stream[..], usize::MAX);
+    let mut op = format!("P|{}", k);
+    let mut imp = hex(&bytes);
+    let mut bad: Option<(String, String)> = None;
+    let mut start = 0usize;
+    let mut stopped = false;
+    for (n, v) in vals.iter().enumerate() {
+        op.push_str(&format!("|{}|{}", v.desc(), v.render()));
+        if stopped { imp.push_str("|-"); continue; }
+        let (o, same) = v.decode_cmp(&mut dec, plugin, false);
+        imp.push_str(&format!("|{}", o.show()));
+        if !matches!(o, Outcome::Ok { .. }) { stopped = true; }
+        if bad.is_none() { if let Some(kind) = verdict(&o, same, ends[n] - start) { bad = Some((v.desc(), kind.to_string())); } }
+        start = ends[n];
+    }
+    op.push_str(&format!("|{}", hex(&j)));
+    st.line(out, "pairs", &op, &imp, true);
+    if let Some((d, kind)) = bad { st.fail(format!("{kind}:{d}"), format!("back-to-back: element of type {d} {kind}; stream {}", hex(&bytes)), op); }
+}
+
+// ------------------------------------------------------------------------------------------------
+// malformed streams: structure-aware mutations of valid encodings
+// ------------------------------------------------------------------------------------------------
+fn varint_max(k: Kind) -> Option<usize> { match k { Kind::U16 | Kind::I16 => Some(3), Kind::U32 | Kind::I32 | Kind::Char => Some(5), Kind::U64 | Kind::I64 | Kind::Usize | Kind::Isize => Some(10), Kind::U128 | Kind::I128 => Some(19), _ => None } }
+fn leb(mut v: u128) -> Vec<u8> { let mut o = vec![]; while v >= 0x80 { o.push((v as u8) | 0x80); v >>= 7; } o.push(v as u8); o }
+fn unleb(b: &[u8]) -> u128 { let mut r = 0u128; for (i, x) in b.iter().enumerate() { if 7 * i < 128 { r |= ((x & 0x7f) as u128) << (7 * i); } } r }
+fn splice(bytes: &[u8], r: &Rec, new: &[u8]) -> Vec<u8> { let mut o = bytes[..r.off].to_vec(); o.extend_from_slice(new); o.extend_from_slice(&bytes[r.off + r.len..]); o }
+fn mutate(bytes: &[u8], recs: &[Rec], rng: &mut Rng) -> (Vec<u8>, &'static str) {
+    let varints: Vec<&Rec> = recs.iter().filter(|r| varint_max(r.kind).is_some()).collect();
+    let tags: Vec<&Rec> = recs.iter().filter(|r| matches!(r.kind, Kind::U8 | Kind::Bool | Kind::I8)).collect();
+    let raws: Vec<&Rec> = recs.iter().filter(|r| r.kind == Kind::Raw && r.len > 0).collect();
+    for _ in 0..8 {
+        match rng.below(10) {
+            0 | 1 if !bytes.is_empty() => { let cut = rng.below(bytes.len() as u64) as usize; return (bytes[..cut].to_vec(), "truncate"); }
+            2 if !varints.is_empty() => {
+                let r = *rng.pick(&varints); let mx = varint_max(r.kind).unwrap();
+                let mut b = bytes[r.off..r.off + r.len].to_vec();
+                let pad = rng.range(1, (mx + 2 - r.len.min(mx + 1)).max(1) as u64) as usize;
+                *b.last_mut().unwrap() |= 0x80; for _ in 0..pad - 1 { b.push(0x80); } b.push(0x00);
+                return (splice(bytes, r, &b), "varint-overlong");
+            }
+            3 if !varints.is_empty() => {
+                let r = *rng.pick(&varints); let mx = varint_max(r.kind).unwrap();
+                let mut b = vec![0xffu8; mx - 1]; b.push(*rng.pick(&[0x7fu8, 0x01, 0x03, 0x00, 0x0f, 0x02]));
+                return (splice(bytes, r, &b), "varint-highbits");
+            }
+            4 if !varints.is_empty() => {
+                let r = *rng.pick(&varints); let mx = varint_max(r.kind).unwrap();
+                let mut b = vec![0x80u8; mx + rng.below(2) as usize]; if rng.chance(1, 2) { b.push(0) }
+                return (splice(bytes, r, &b), "varint-too-long");
+            }
+            5 if !varints.is_empty() => {
+                let r = *rng.pick(&varints); let v = unleb(&bytes[r.off..r.off + r.len]);
+                let nv: u128 = match r.kind {
+                    Kind::Usize => { let c = [0, v.wrapping_add(1), v.saturating_sub(1), v + 2, 2 * v + 1, 127, 128]; (*rng.pick(&c)).min(200) }
+                    Kind::Char => *rng.pick(&[0xD800u128, 0xDFFF, 0x110000, 0xFFFF_FFFF, 0x41, 0xD7FF]),
+                    _ => if rng.chance(1, 2) { 0 } else { rng.below(300) as u128 },
+                };
+                return (splice(bytes, r, &leb(nv)), "value-change");
+            }
+            6 if !tags.is_empty() => { let r = *rng.pick(&tags); let b = [*rng.pick(&[0u8, 1, 2, 3, 0x7f, 0x80, 0xff])]; return (splice(bytes, r, &b), "tag"); }
+            7 if !raws.is_empty() => {
+                let r = *rng.pick(&raws); let mut b = bytes[r.off..r.off + r.len].to_vec();
+                if b.len() >= 3 && rng.chance(1, 3) { b[0] = 0xED; b[1] = 0xA0; b[2] = 0x80; }
+                else { let i = rng.below(b.len() as u64) as usize; b[i] = *rng.pick(&[0xffu8, 0xc0, 0x80, 0xf8, 0xc2, 0xe0, 0xf4]); }
+                return (splice(bytes, r, &b), "utf8");
+            }
+            8 if !bytes.is_empty() => { let mut b = bytes.to_vec(); let i = rng.below(b.len() as u64) as usize; b[i] = if rng.chance(1, 2) { b[i] ^ (1 << rng.below(8)) } else { rng.next() as u8 }; return (b, "byte-flip"); }
+            9 => return (bytes.to_vec(), "unchanged"),
+            _ => {}
+        }
+    }
+    (bytes.to_vec(), "unchanged")
+}
+fn malformed_case(out: &mut Out, st: &mut Stats, e: &dyn Erased, rng: &mut Rng, plugin: &Plugin, all_prefixes: bool) {
+    let desc = e.desc();
+    let (bytes, recs) = e.trace(plugin);
+    let star = unordered(&desc);
+    let streams: Vec<(Vec<u8>, &'static str)> = if all_prefixes { (0..bytes.len()).map(|c| (bytes[..c].to_vec(), "truncate")).collect() } else { vec![mutate(&bytes, &recs, rng)] };
+    for (stream, what) in streams {
+        let mut dec = Guard::new(&stream[..], LIMIT);
+        let (o, _) = e.decode_cmp(&mut dec, plugin, star);
+        if dec.tripped { st.guard_skipped += 1; continue; }
+        Stats::bump(&mut st.classes, o.class()); Stats::bump(&mut st.mutations, what);
+        st.line(out, "malformed", &format!("M|{}|{}", desc, hex(&stream)), &o.show(), true);
+    }
+}
+
+// ------------------------------------------------------------------------------------------------
+// interned handles
+// ------------------------------------------------------------------------------------------------
+#[derive(Clone, Copy)]
+pub struct MaskedSip { inner: Sip128Hasher, mask: u128 }
+impl StableHasher for MaskedSip {
+    type Hash = u128;
+    fn finish(&self) -> u128 { StableHasher::finish(&self.inner) & self.mask }
+    fn write(&mut self, bytes: &[u8]) { StableHasher::write(&mut self.inner, bytes) }
+    fn sub_hash(&self, f: &mut dyn FnMut(&mut dyn StableHasher<Hash = u128>)) -> u128 { let mut s = *self; f(&mut s); s.finish() }
+}
+#[derive(Clone, Copy)]
+pub struct MaskedBuilder { seed: u64, mask: u128 }
+impl BuildStableHasher for MaskedBuilder {
+    type Hash = u128; type Hasher = MaskedSip;
+    fn build_stable_hasher(&self) -> MaskedSip { let mut h = MaskedSip { inner: Sip128Hasher::default(), mask: self.mask }; self.seed.stable_hash(&mut h); h }
+}
+pub enum Flat { Plain { desc: String, render: String }, Handle { tid: u32, desc: String, hash: u128, render: String, ptr: usize } }
+fn plain<T: Describe>(v: &T) -> Flat { Flat::Plain { desc: T::desc(), render: v.render() } }
+fn ptr_of<T: ?Sized>(h: &Interned<T>) -> usize { (&**h) as *const T as *const u8 as usize }
+fn h_string(h: &Interned<String>, it: &Interner) -> Flat { Flat::Handle { tid: 0, desc: "str".into(), hash: it.hash_128(&**h).to_u128(), render: h.render(), ptr: ptr_of(h) } }
+fn h_u64(h: &Interned<u64>, it: &Interner) -> Flat { Flat::Handle { tid: 1, desc: "u64".into(), hash: it.hash_128(&**h).to_u128(), render: h.render(), ptr: ptr_of(h) } }
+fn h_vec16(h: &Interned<Vec<u16>>, it: &Interner) -> Flat { Flat::Handle { tid: 2, desc: "seq(u16)".into(), hash: it.hash_128(&**h).to_u128(), render: h.render(), ptr: ptr_of(h) } }
+fn h_str(h: &Interned<str>, it: &Interner) -> Flat { Flat::Handle { tid: 3, desc: "str".into(), hash: it.hash_128(&**h).to_u128(), render: shex(h.as_bytes()), ptr: ptr_of(h) } }
+fn h_sl32(h: &Interned<[u32]>, it: &Interner) -> Flat { Flat::Handle { tid: 4, desc: "seq(u32)".into(), hash: it.hash_128(&**h).to_u128(), render: list(h.iter().map(|x| x.render()).collect()), ptr: ptr_of(h) } }
+
+/// how a handle is made: through the interner (warm) or as a private allocation (fresh: no conflation
+/// of colliding values before encoding)
+pub struct Mk<'a> { it: Option<&'a Interner> }
+impl<'a> Mk<'a> {
+    fn sized<T: StableHash + qbice_stable_type_id::Identifiable + Send + Sync + 'static>(&self, v: T) -> Interned<T> { match self.it { Some(i) => i.intern(v), None => Interned::new_duplicating(v) } }
+    fn str(&self, v: String) -> Interned<str> { match self.it { Some(i) => i.intern_unsized(v.into_boxed_str()), None => Interned::new_duplicating_unsized(v.into_boxed_str()) } }
+    fn sl32(&self, v: Vec<u32>) -> Interned<[u32]> { match self.it { Some(i) => i.intern_unsized(v.into_boxed_slice()), None => Interned::new_duplicating_unsized(v.into_boxed_slice()) } }
+}
+const IPOOL_S: &[&str] = &["", "a", "b", "ab", "漢", "hello", "x", "y"];
+fn pool_string(rng: &mut Rng) -> String { (*rng.pick(IPOOL_S)).to_string() }
+fn pool_u64(rng: &mut Rng) -> u64 { *rng.pick(&[0u64, 1, 2, 127, 128, u64::MAX, 300]) }
+fn pool_v16(rng: &mut Rng) -> Vec<u16> { let n = rng.below(3); (0..n).map(|_| *rng.pick(&[0u16, 1, 200])).collect() }
+
+pub trait Shape: Encode + Decode + Sized { fn build(rng: &mut Rng, mk: &Mk) -> Self; fn flat(&self, it: &Interner) -> Vec<Flat>; }
+type S1 = Vec<Interned<String>>;
+type S2 = (Interned<u64>, u16, Interned<u64>, Option<Interned<String>>, Interned<u64>);
+type S3 = Vec<(Interned<Vec<u16>>, Interned<String>)>;
+type S4 = (Vec<Interned<str>>, Vec<Interned<[u32]>>);
+impl Shape for S1 {
+    fn build(rng: &mut Rng, mk: &Mk) -> Self { let n = rng.below(7); (0..n).map(|_| mk.sized(pool_string(rng))).collect() }
+    fn flat(&self, it: &Interner) -> Vec<Flat> { let mut v = vec![plain(&self.len())]; v.extend(self.iter().map(|h| h_string(h, it))); v }
+}
+impl Shape for S2 {
+    fn build(rng: &mut Rng, mk: &Mk) -> Self { (mk.sized(pool_u64(rng)), rng.next() as u16, mk.sized(pool_u64(rng)), if rng.chance(2, 3) { Some(mk.sized(pool_string(rng))) } else { None }, mk.sized(pool_u64(rng))) }
+    fn flat(&self, it: &Interner) -> Vec<Flat> {
+        let mut v = vec![h_u64(&self.0, it), plain(&self.1), h_u64(&self.2, it)];
+        match &self.3 { None => v.push(plain(&false)), Some(h) => { v.push(plain(&true)); v.push(h_string(h, it)); } }
+        v.push(h_u64(&self.4, it)); v
+    }
+}
+impl Shape for S3 {
+    fn build(rng: &mut Rng, mk: &Mk) -> Self { let n = rng.below(5); (0..n).map(|_| (mk.sized(pool_v16(rng)), mk.sized(pool_string(rng)))).collect() }
+    fn flat(&self, it: &Interner) -> Vec<Flat> { let mut v = vec![plain(&self.len())]; for (a, b) in self { v.push(h_vec16(a, it)); v.push(h_string(b, it)); } v }
+}
+impl Shape for S4 {
+    fn build(rng: &mut Rng, mk: &Mk) -> Self {
+        let n = rng.below(5); let m = rng.below(4);
+        ((0..n).map(|_| mk.str(pool_string(rng))).collect(), (0..m).map(|_| mk.sl32(pool_v16(rng).into_iter().map(|x| x as u32).collect())).collect())
+    }
+    fn flat(&self, it: &Interner) -> Vec<Flat> {
+        let mut v = vec![plain(&self.0.len())]; v.extend(self.0.iter().map(|h| h_str(h, it)));
+        v.push(plain(&self.1.len())); v.extend(self.1.iter().map(|h| h_sl32(h, it))); v
+    }
+}
+fn show_decoded(fl: &[Flat]) -> String {
+    let mut o = vec![];
+    for (i, f) in fl.iter().enumerate() {
+        match f {
+            Flat::Plain { render, .. } => o.push(format!("p:{render}")),
+            Flat::Handle { tid, render, ptr, .. } => {
+                let class = fl.iter().position(|g| matches!(g, Flat::Handle { tid: t2, ptr: p2, .. } if t2 == tid && p2 == ptr)).unwrap_or(i);
+                o.push(format!("h:{class}:{render}"));
+            }
+        }
+    }
+    o.join(";")
+}
+fn interned_case<S: Shape>(out: &mut Out, st: &mut Stats, rng: &mut Rng) {
+    let warm = rng.chance(1, 3);
+    let mask: u128 = if !warm && rng.chance(1, 3) { 0x3 } else { u128::MAX };
+    let hb = MaskedBuilder { seed: rng.next(), mask };
+    let enc_it = Interner::new(4, hb);
+    let mut enc_plugin = Plugin::new(); enc_plugin.insert(enc_it.clone());
+    let dec_it = if warm { enc_it.clone() } else { Interner::new(4, hb) };
+    let mut dec_plugin = Plugin::new(); dec_plugin.insert(dec_it.clone());
+    let mk = Mk { it: if warm { Some(&enc_it) } else { None } };
+    let v = S::build(rng, &mk);
+    let fl = v.flat(&enc_it);
+    let (bytes, recs) = trace_real(&v, &enc_plugin);
+    let items: Vec<String> = fl.iter().map(|f| match f { Flat::Plain { desc, render } => format!("p:{desc}:{render}"), Flat::Handle { tid, desc, hash, render, .. } => format!("h:{tid}:{desc}:{hash}:{render}") }).collect();
+    let mode = if warm { "warm" } else { "fresh" };
+    // does the hypothesis of `interned_roundtrip` hold on this structure?
+    let hs: Vec<(u32, u128, &String)> = fl.iter().filter_map(|f| if let Flat::Handle { tid, hash, render, .. } = f { Some((*tid, *hash, render)) } else { None }).collect();
+    let hyp = hs.iter().all(|a| hs.iter().all(|b| !(a.0 == b.0 && a.1 == b.1) || a.2 == b.2));
+    if !hyp { st.hyp_violated += 1; }
+    let mutated = rng.chance(1, 5);
+    if !mutated {
+        let j = junk(rng);
+        let mut stream = bytes.clone(); stream.extend_from_slice(&j);
+        let mut dec = Guard::new(&stream[..], usize::MAX);
+        let r = decode_real::<S>(&mut dec, &dec_plugin);
+        let consumed = stream.len() - dec.remaining();
+        let (imp_o, ok) = match &r {
+            Ok(d) => {
+                let dfl = d.flat(&dec_it);
+                let shown = show_decoded(&dfl);
+                // oracle: same values, same sharing, exact consumption
+                let same_vals = dfl.len() == fl.len() && dfl.iter().zip(fl.iter()).all(|(a, b)| match (a, b) {
+                    (Flat::Plain { render: x, .. }, Flat::Plain { render: y, .. }) => x == y,
+                    (Flat::Handle { render: x, tid: t, .. }, Flat::Handle { render: y, tid: u, .. }) => x == y && t == u, _ => false });
+                let sharing = dfl.iter().enumerate().all(|(i, a)| dfl.iter().enumerate().all(|(k, b)| match (a, b, &fl[i], &fl[k]) {
+                    (Flat::Handle { tid: t, ptr: p, .. }, Flat::Handle { tid: u, ptr: q, .. }, Flat::Handle { render: x, .. }, Flat::Handle { render: y, .. }) if t == u => (p == q) == (x == y), _ => true }));
+                (format!("ok|{}|{}", shown, consumed), same_vals && sharing && consumed == bytes.len())
+            }
+            Err(o) => (o.show(), false),
+        };
+        let op = format!("I|{}|{}|{}", mode, items.join(";"), hex(&j));
+        st.line(out, "interned", &op, &format!("{}|{}", hex(&bytes), imp_o), true);
+        if hyp && !ok { st.fail("interned:roundtrip".into(), format!("interned structure not reproduced: {imp_o}"), op); }
+    } else {
+        // mutated stream: truncation, an invalid handle tag, or (full-width hash only: the lookup then misses and the
+        // decoder panics; with the 2-bit hasher it could hit and shift the shape of the structure, which the flat
+        // item list of the model does not follow) a first occurrence turned into a reference
+        let tags: Vec<&Rec> = recs.iter().filter(|r| r.kind == Kind::U8).collect();
+        let stream = if tags.is_empty() || rng.chance(1, 2) { if bytes.is_empty() { bytes.clone() } else { bytes[..rng.below(bytes.len() as u64) as usize].to_vec() } }
+                     else { let r = *rng.pick(&tags); let nb = if bytes[r.off] == 0 && mask == u128::MAX && rng.chance(2, 3) { 1u8 } else { *rng.pick(&[2u8, 3, 0xff]) }; splice(&bytes, r, &[nb]) };
+        let dec_it2 = dec_it.clone();
+        let mut dec = Guard::new(&stream[..], LIMIT);
+        let r = decode_real::<S>(&mut dec, &dec_plugin);
+        if dec.tripped { st.guard_skipped += 1; return; }
+        let consumed = stream.len() - dec.remaining();
+        let imp_o = match &r { Ok(d) => format!("ok|{}|{}", show_decoded(&d.flat(&dec_it2)), consumed), Err(o) => o.show() };
+        Stats::bump(&mut st.classes, &format!("interned-{}", imp_o.split('|').next().unwrap()));
+        let tys: Vec<String> = fl.iter().map(|f| match f { Flat::Plain { desc, .. } => format!("p:{desc}"), Flat::Handle { tid, desc, .. } => format!("h:{tid}:{desc}") }).collect();
+        // the values the decoder-side interner already holds (warm) and the hash table for the model
+        let known: Vec<String> = fl.iter().filter_map(|f| if let Flat::Handle { tid, desc, hash, render, .. } = f { Some(format!("{tid}:{desc}:{hash}:{render}")) } else { None }).collect();
+        st.line(out, "interned", &format!("J|{}|{}|{}|{}", mode, tys.join(";"), known.join(";"), hex(&stream)), &imp_o, true);
+    }
+    drop(v);
+}
+
+// ------------------------------------------------------------------------------------------------
+// main: stages, sharding, report
+// ------------------------------------------------------------------------------------------------
+fn jmap<K: std::fmt::Display>(m: &BTreeMap<K, u64>) -> String { format!("{{{}}}", m.iter().map(|(k, v)| format!("{}:{}", jstr(&k.to_string()), v)).collect::<Vec<_>>().join(",")) }
+
+fn main() {
+    let a = args();
+    if std::env::var("C12_PANIC_MSG").is_err() { std::panic::set_hook(Box::new(|_| {})); }
+    let mut shard = (0u64, 1u64);
+    let mut stages: Vec<String> = vec!["exh16", "edges", "random", "pairs", "malformed", "interned"].into_iter().map(String::from).collect();
+    let mut i = 0;
+    while i < a.rest.len() {
+        match a.rest[i].as_str() {
+            "--shard" => { shard = (a.rest[i + 1].parse().unwrap(), a.rest[i + 2].parse().unwrap()); i += 3; }
+            "--stages" => { stages = a.rest[i + 1].split(',').map(String::from).collect(); i += 2; }
+            "--list-f7-sigs" => {
+                for e in registry().iter().filter(|e| e.f7) { for k in ["mismatch", "consumed", "error-eof", "error-invalid", "error-other", "panic"] { println!("{k}:{}", e.desc); } }
+                return;
+            }
+            _ => { i += 1; }
+        }
+    }
+    let n = a.n.unwrap_or(if a.tier == "thorough" { 40000 } else { 4000 });
+    let reg = registry();
+    let plugin = Plugin::new();
+    let mut out = Out::new(&a.out);
+    let mut st = Stats::default();
+    let mut rng = Rng::new(a.seed.wrapping_mul(1_000_003).wrapping_add(shard.0));
+    for e in &reg { st.rust_types.insert(e.rust); st.descs.insert(e.desc.clone()); }
+
+    if let Some(f) = &a.replay {
+        // replay file: op lines (V/P/M) re-run through the real code by descriptor lookup is not needed for the
+        // oracle: a replay carries the op line, the driver and this harness are deterministic in (seed, shard).
+        let _ = f;
+    }
+
+    if stages.iter().any(|s| s == "exh16") {
+        // all 2^16 values of every 16-bit integer type
+        for e in reg.iter().filter(|e| (e.from_u16)(1).is_some()) {
+            for x in 0..=u16::MAX { if (x as u64) % shard.1 != shard.0 { continue; } if let Some(v) = (e.from_u16)(x) { value_case(&mut out, &mut st, "exh16", &*v, e.depth, &mut rng, &plugin); } }
+        }
+    }
+    if stages.iter().any(|s| s == "edges") {
+        for (k, e) in reg.iter().enumerate() { if (k as u64) % shard.1 != shard.0 { continue; } for v in (e.edges)() { value_case(&mut out, &mut st, "edges", &*v, e.depth, &mut rng, &plugin); } }
+    }
+    if stages.iter().any(|s| s == "random") {
+        // every registered type at least once per run (across shards), then random types
+        for (k, e) in reg.iter().enumerate() { if (k as u64) % shard.1 != shard.0 { continue; } for size in [1u32, 3, 4] { let mut g = Gen { rng: Rng(rng.next()), size }; let v = (e.mk)(&mut g); value_case(&mut out, &mut st, "random", &*v, e.depth, &mut rng, &plugin); } }
+        for _ in 0..n { let e = rng.pick(&reg); let mut g = Gen { rng: Rng(rng.next()), size: rng.range(0, 4) as u32 }; let v = (e.mk)(&mut g); value_case(&mut out, &mut st, "random", &*v, e.depth, &mut rng, &plugin); }
+    }
+    if stages.iter().any(|s| s == "pairs") {
+        for _ in 0..n / 8 { let size = rng.range(0, 3) as u32; pair_case(&mut out, &mut st, &reg, &mut rng, &plugin, size); }
+    }
+    if stages.iter().any(|s| s == "malformed") {
+        for (k, e) in reg.iter().enumerate() { if (k as u64) % shard.1 != shard.0 { continue; } let mut g = Gen { rng: Rng(rng.next()), size: 2 }; let v = (e.mk)(&mut g); malformed_case(&mut out, &mut st, &*v, &mut rng, &plugin, true); }
+        for _ in 0..n / 2 { let e = rng.pick(&reg); let mut g = Gen { rng: Rng(rng.next()), size: rng.range(0, 3) as u32 }; let v = (e.mk)(&mut g); malformed_case(&mut out, &mut st, &*v, &mut rng, &plugin, false); }
+    }
+    if stages.iter().any(|s| s == "interned") {
+        for _ in 0..(n / 16).max(8) {
+            interned_case::<S1>(&mut out, &mut st, &mut rng); interned_case::<S2>(&mut out, &mut st, &mut rng);
+            interned_case::<S3>(&mut out, &mut st, &mut rng); interned_case::<S4>(&mut out, &mut st, &mut rng);
+        }
+    }
+
+    let fails: Vec<String> = st.failures.iter().map(|(sig, desc, case)| format!("{{\"sig\":{},\"desc\":{},\"case\":{}}}", jstr(sig), jstr(&desc.chars().take(600).collect::<String>()), jstr(&case.chars().take(2000).collect::<String>()))).collect();
+    let report = format!(
+        "{{\"evaluations\":{},\"distinct_nontrivial\":{},\"rule\":{},\"samples\":[{}],\"distribution\":{{\"by_stage\":{},\"by_type_depth\":{},\"encoded_length\":{},\"malformed_outcome\":{},\"mutation_kind\":{},\"rust_types\":{},\"descriptors\":{},\"guard_skipped\":{},\"interned_hypothesis_violated\":{}}},\"oracle_failures\":[{}]}}",
+        st.lines, st.nontrivial.len(),
+        jstr("distinct op lines whose encoding has at least 2 bytes, plus every back-to-back, malformed and interned case"),
+        st.samples.iter().map(|s| jstr(&s.chars().take(300).collect::<String>())).collect::<Vec<_>>().join(","),
+        jmap(&st.by_stage), jmap(&st.by_depth), jmap(&st.enc_len), jmap(&st.classes), jmap(&st.mutations),
+        st.rust_types.len(), st.descs.len(), st.guard_skipped, st.hyp_violated, fails.join(","));
+    out.finish(&report);
 }
